@@ -88,6 +88,8 @@ func suiteHistory(args []string) {
 	userTypeShapes(r, rep)
 	embeddedShapes(rep)
 	transplants(r, rep)
+	wildcardTransplants(r, rep)
+	tagValuesIgnored(r, rep)
 	userSchemas(r, rep, 30+*n)
 	rep.emit()
 }
@@ -274,6 +276,150 @@ func embeddedShapes(rep *Report) {
 					rep.Violations = append(rep.Violations, map[string]interface{}{"kind": "user-type", "what": "Decode rejects the bytes Encode produced for a user-defined structure with an embedded structure", "value": c.name, "error": derr.Error()})
 				}
 			}()
+		}
+	}
+}
+
+// a structure that arrives through a wildcard field (kmip:"-") is a plain value too: decoded, it equals the literal, and
+// moved into an annotated field (or encoded on its own) it goes out under the tag the annotation names (C18, C02)
+type UWildSrc struct {
+	kmip.Tag `kmip:"RESPONSE_PAYLOAD"`
+	ID       string    `kmip:"UNIQUE_IDENTIFIER,required"`
+	V        kmip.Name `kmip:"ATTRIBUTE_VALUE"`
+}
+type UWild struct {
+	kmip.Tag `kmip:"RESPONSE_PAYLOAD"`
+	ID       string    `kmip:"UNIQUE_IDENTIFIER,required"`
+	Any      kmip.Name `kmip:"-"`
+}
+type UNameHolder struct {
+	kmip.Tag `kmip:"REQUEST_PAYLOAD"`
+	N        kmip.Name `kmip:"NAME,required"`
+	L        int32     `kmip:"CRYPTOGRAPHIC_LENGTH"`
+}
+
+func wildcardTransplants(r *rand.Rand, rep *Report) {
+	add := func(what string, m map[string]interface{}) {
+		m["kind"], m["what"] = "transplant", what
+		if len(rep.Violations) < 12 {
+			rep.Violations = append(rep.Violations, m)
+		}
+	}
+	for k := 0; k < 8; k++ {
+		lit := kmip.Name{Value: fmt.Sprintf("n%d", r.Intn(1000)), Type: kmip.Enum(1 + r.Intn(2))}
+		_, src := implEncode(UWildSrc{ID: "7", V: lit})
+		if src == nil {
+			continue
+		}
+		var got UWild
+		panicked := ""
+		var derr error
+		func() {
+			defer func() {
+				if p := recover(); p != nil {
+					panicked = firstLine(fmt.Sprint(p))
+				}
+			}()
+			derr = kmip.NewDecoder(bytes.NewReader(src)).Decode(&got)
+		}()
+		rep.Evaluations++
+		rep.Distribution["transplant:wildcard"]++
+		if panicked != "" {
+			add("Decode panicked on a structure with a wildcard structure field", map[string]interface{}{"panic": panicked})
+			continue
+		}
+		if derr != nil {
+			continue // a library that does not decode through wildcard fields is not wrong
+		}
+		if !reflect.DeepEqual(got.Any, lit) {
+			add("a structure decoded through a wildcard field differs from the value that was encoded", map[string]interface{}{"decoded": fmt.Sprintf("%+v", got.Any), "literal": fmt.Sprintf("%+v", lit)})
+		}
+		_, want := implEncode(UNameHolder{N: lit, L: 5})
+		_, moved := implEncode(UNameHolder{N: got.Any, L: 5})
+		if want != nil && !bytes.Equal(want, moved) {
+			add("a structure decoded through a wildcard field and moved into an annotated field is not emitted under that field's tag", map[string]interface{}{"literal": hexBytes(want), "decoded_then_moved": hexBytes(moved)})
+		}
+		_, want = implEncode(lit)
+		_, moved = implEncode(got.Any)
+		if want != nil && !bytes.Equal(want, moved) {
+			add("a structure decoded through a wildcard field, encoded on its own, is not emitted under the tag its Tag annotation names", map[string]interface{}{"literal": hexBytes(want), "decoded": hexBytes(moved)})
+		}
+	}
+}
+
+// setTagFields: every embedded Tag field of a value (recursively, through pointers, interfaces and slices) set to x
+func setTagFields(v reflect.Value, x kmip.Tag, depth int) reflect.Value {
+	if depth > 12 {
+		return v
+	}
+	switch v.Kind() {
+	case reflect.Ptr:
+		if v.IsNil() {
+			return v
+		}
+		p := reflect.New(v.Type().Elem())
+		p.Elem().Set(setTagFields(v.Elem(), x, depth+1))
+		return p
+	case reflect.Interface:
+		if v.IsNil() {
+			return v
+		}
+		c := reflect.New(v.Type()).Elem()
+		c.Set(setTagFields(v.Elem(), x, depth+1))
+		return c
+	case reflect.Slice:
+		if v.IsNil() || v.Type() == tBytes {
+			return v
+		}
+		c := reflect.MakeSlice(v.Type(), v.Len(), v.Len())
+		for i := 0; i < v.Len(); i++ {
+			c.Index(i).Set(setTagFields(v.Index(i), x, depth+1))
+		}
+		return c
+	case reflect.Struct:
+		if v.Type() == tTime {
+			return v
+		}
+		c := reflect.New(v.Type()).Elem()
+		c.Set(v)
+		for i := 0; i < v.NumField(); i++ {
+			f := v.Type().Field(i)
+			if f.PkgPath != "" && !f.Anonymous {
+				continue
+			}
+			if f.Type == tTag {
+				if c.Field(i).CanSet() {
+					c.Field(i).SetUint(uint64(x))
+				}
+				continue
+			}
+			if c.Field(i).CanSet() {
+				c.Field(i).Set(setTagFields(v.Field(i), x, depth+1))
+			}
+		}
+		return c
+	}
+	return v
+}
+
+// tagValuesIgnored (C18 / C02): the number a structure is written under comes from the annotations alone; whatever the
+// embedded Tag fields of the value hold (nothing in the library sets them) changes no byte
+func tagValuesIgnored(r *rand.Rand, rep *Report) {
+	names := sortedTypeNames()
+	for k := 0; k < 150; k++ {
+		tn := names[r.Intn(len(names))]
+		v := (&gen{r: r, wf: true}).genTop(tn)
+		_, want := implEncode(v)
+		if want == nil {
+			continue
+		}
+		x := []kmip.Tag{kmip.ATTRIBUTE_VALUE, kmip.NAME, kmip.BATCH_ITEM, kmip.Tag(0x42ffff), kmip.Tag(1)}[r.Intn(5)]
+		obs, got := implEncode(setTagFields(reflect.ValueOf(v), x, 0).Interface())
+		rep.Evaluations++
+		rep.Distribution["tag-values-ignored"]++
+		if !bytes.Equal(got, want) && len(rep.Violations) < 12 {
+			rep.Violations = append(rep.Violations, map[string]interface{}{"kind": "user-type-tag", "what": "the value held by the embedded Tag fields changes the encoding (the tag comes from the annotation)",
+				"type": tn, "tag_value": fmt.Sprintf("%06x", uint32(x)), "want": firstN(hexBytes(want), 600), "got": firstN(obs, 600)})
 		}
 	}
 }
